@@ -24,7 +24,74 @@ type TC struct {
 	Type  string `json:"type"`
 	Name  string `json:"name"`
 	Args  string `json:"args"`
-	Extra int    `json:"extra"` // 0 = nil Extra map, n > 0 = {"t": n}
+	Extra int    `json:"extra"` // index into tcExtraPool: 0 = nil Extra map, 1 / 2 = {"t": n}, 3 = empty non-nil map, ...
+}
+
+// tcExtraPool: the Extra maps a tool call may carry (never merged by concatToolCalls, only
+// carried from the first fragment of an index group): the model sees the pool index.
+var tcExtraPool = []func() map[string]any{
+	func() map[string]any { return nil },
+	func() map[string]any { return map[string]any{"t": 1} },
+	func() map[string]any { return map[string]any{"t": 2} },
+	func() map[string]any { return map[string]any{} },
+	func() map[string]any { return map[string]any{"a": "x", "n": map[string]any{"b": nil}} },
+	func() map[string]any { return map[string]any{"t": 1, "u": []string{"z"}} },
+}
+
+func tcExtraIndex(m map[string]any) int {
+	if m == nil {
+		return 0
+	}
+	for i := 1; i < len(tcExtraPool); i++ {
+		if reflect.DeepEqual(m, tcExtraPool[i]()) {
+			return i
+		}
+	}
+	return -1
+}
+
+// MultiContent parts: a text part is its text; "img:U", "aud:U", "vid:U", "file:U" are parts of
+// the other types with their URL struct filled in (checked field by field on the way back).
+func partToGo(t string) schema.ChatMessagePart {
+	ex := func() map[string]any { return map[string]any{"w": len(t)} }
+	switch {
+	case strings.HasPrefix(t, "img:"):
+		return schema.ChatMessagePart{Type: schema.ChatMessagePartTypeImageURL,
+			ImageURL: &schema.ChatMessageImageURL{URL: t[4:], URI: "uri-" + t[4:], Detail: schema.ImageURLDetailHigh, MIMEType: "image/png", Extra: ex()}}
+	case strings.HasPrefix(t, "aud:"):
+		return schema.ChatMessagePart{Type: schema.ChatMessagePartTypeAudioURL,
+			AudioURL: &schema.ChatMessageAudioURL{URL: t[4:], URI: "uri-" + t[4:], MIMEType: "audio/wav", Extra: ex()}}
+	case strings.HasPrefix(t, "vid:"):
+		return schema.ChatMessagePart{Type: schema.ChatMessagePartTypeVideoURL,
+			VideoURL: &schema.ChatMessageVideoURL{URL: t[4:], URI: "uri-" + t[4:], MIMEType: "video/mp4", Extra: ex()}}
+	case strings.HasPrefix(t, "file:"):
+		return schema.ChatMessagePart{Type: schema.ChatMessagePartTypeFileURL,
+			FileURL: &schema.ChatMessageFileURL{URL: t[5:], URI: "uri-" + t[5:], MIMEType: "text/plain", Name: "n-" + t[5:], Extra: ex()}}
+	}
+	return schema.ChatMessagePart{Type: schema.ChatMessagePartTypeText, Text: t}
+}
+
+func partFromGo(p schema.ChatMessagePart) string {
+	for _, cand := range []string{p.Text} {
+		if reflect.DeepEqual(p, partToGo(cand)) {
+			return cand
+		}
+	}
+	url, pre := "", ""
+	switch {
+	case p.ImageURL != nil:
+		url, pre = p.ImageURL.URL, "img:"
+	case p.AudioURL != nil:
+		url, pre = p.AudioURL.URL, "aud:"
+	case p.VideoURL != nil:
+		url, pre = p.VideoURL.URL, "vid:"
+	case p.FileURL != nil:
+		url, pre = p.FileURL.URL, "file:"
+	}
+	if pre != "" && reflect.DeepEqual(p, partToGo(pre+url)) {
+		return pre + url
+	}
+	return "CORRUPT:" + p.Text + "|" + string(p.Type) + "|" + pre + url
 }
 
 type Meta struct {
@@ -59,7 +126,7 @@ func (m *Msg) toGo() *schema.Message {
 	if m.Multi != nil {
 		s := make([]schema.ChatMessagePart, len(m.Multi), len(m.Multi)+spare)
 		for i, t := range m.Multi {
-			s[i] = schema.ChatMessagePart{Type: schema.ChatMessagePartTypeText, Text: t}
+			s[i] = partToGo(t)
 		}
 		full := s[:cap(s)]
 		for i := len(s); i < cap(s); i++ {
@@ -75,8 +142,8 @@ func (m *Msg) toGo() *schema.Message {
 				v := int(*t.Idx)
 				tc.Index = &v
 			}
-			if t.Extra > 0 {
-				tc.Extra = map[string]any{"t": t.Extra}
+			if t.Extra > 0 && t.Extra < len(tcExtraPool) {
+				tc.Extra = tcExtraPool[t.Extra]()
 			}
 			s[i] = tc
 		}
@@ -155,11 +222,7 @@ func fromGoMsg(g *schema.Message) *Msg {
 	if g.MultiContent != nil {
 		m.Multi = []string{}
 		for _, p := range g.MultiContent {
-			txt := p.Text
-			if p.Type != schema.ChatMessagePartTypeText {
-				txt = "CORRUPT:" + txt
-			}
-			m.Multi = append(m.Multi, txt)
+			m.Multi = append(m.Multi, partFromGo(p))
 		}
 	}
 	if g.ToolCalls != nil {
@@ -170,13 +233,7 @@ func fromGoMsg(g *schema.Message) *Msg {
 				v := int64(*t.Index)
 				tc.Idx = &v
 			}
-			if t.Extra != nil {
-				if n, ok := t.Extra["t"].(int); ok && len(t.Extra) == 1 && n > 0 {
-					tc.Extra = n
-				} else {
-					tc.Extra = -1
-				}
-			}
+			tc.Extra = tcExtraIndex(t.Extra)
 			m.TCs = append(m.TCs, tc)
 		}
 	}
@@ -358,7 +415,11 @@ const (
 
 var apiNames = []string{"ConcatMessages", "ConcatMessageStream", "concatStreamReader", "chain.Invoke"}
 
-func callMsgAPI(api int, ms []*schema.Message) (o MObs) {
+func callMsgAPI(api int, ms []*schema.Message) (o MObs) { return callMsgAPIErr(api, ms, -1) }
+
+// callMsgAPIErr: errAt >= 0 makes the reader report a read error in front of chunk errAt
+// (stream-level entry points only)
+func callMsgAPIErr(api int, ms []*schema.Message, errAt int) (o MObs) {
 	var out *schema.Message
 	var err error
 	p := lib.Recover(func() {
@@ -366,14 +427,14 @@ func callMsgAPI(api int, ms []*schema.Message) (o MObs) {
 		case apiConcatMessages:
 			out, err = schema.ConcatMessages(ms)
 		case apiMessageStream:
-			out, err = schema.ConcatMessageStream(schema.StreamReaderFromArray(ms))
+			out, err = schema.ConcatMessageStream(streamOf(ms, errAt))
 		case apiStreamReader:
-			out, err = compose.VerifConcatStreamReader(schema.StreamReaderFromArray(ms))
+			out, err = compose.VerifConcatStreamReader(streamOf(ms, errAt))
 		default:
 			ctx := context.Background()
 			ch := compose.NewChain[string, *schema.Message]()
 			ch.AppendLambda(compose.StreamableLambda(func(ctx context.Context, in string) (*schema.StreamReader[*schema.Message], error) {
-				return schema.StreamReaderFromArray(ms), nil
+				return streamOf(ms, errAt), nil
 			}))
 			r, cerr := ch.Compile(ctx)
 			if cerr != nil {
@@ -470,6 +531,9 @@ func runMsg(c *Case) lib.Result {
 	}
 	if c.Kind == "msgmap" {
 		return runMsgMap(c)
+	}
+	if c.ErrAt != nil {
+		return runMsgErr(c)
 	}
 	res := lib.Result{}
 	o, mut := runOn(c.API, c.Msgs)
@@ -570,6 +634,48 @@ func runMsg(c *Case) lib.Result {
 		}
 		if why := toolCallOrder(c.Msgs, w.Val); why != "" {
 			fail("msg-order", "%s", why)
+		}
+	}
+	return res
+}
+
+// runMsgErr: a message stream whose reader reports a read error: every stream-level entry
+// point must return an error (never a value, never a panic), and must not write to the chunks.
+func runMsgErr(c *Case) lib.Result {
+	res := lib.Result{}
+	n := len(c.Msgs)
+	at := *c.ErrAt
+	if at < 0 || at > n {
+		at = n
+	}
+	api := c.API
+	if api == apiConcatMessages {
+		api = apiStreamReader
+	}
+	run := func(a int) MObs { return callMsgAPIErr(a, buildMsgs(c.Msgs), at) }
+	o := run(api)
+	res.Obs = o
+	res.Tags = []string{"kind:msg", "api:" + apiNames[api], "class:" + o.Class, fmt.Sprintf("chunks:%d", n), "feat:read-error"}
+	res.Nontrivial = n >= 2
+	terms := make([]string, n)
+	for i, m := range c.Msgs {
+		terms[i] = m.coq()
+	}
+	res.CoqTerm = lib.CoqApp("CaseMsgS", coqItems(terms, at), o.coqMsg())
+	apis := []int{apiMessageStream, apiStreamReader}
+	if c.Chain || api == apiChain {
+		apis = append(apis, apiChain)
+	}
+	for _, a := range apis {
+		for rep := 0; rep < 2 && res.Oracle == ""; rep++ {
+			switch oa := run(a); oa.Class {
+			case "panic":
+				res.Oracle = apiNames[a] + " panicked on a stream with a read error: " + oa.Msg
+				res.Sig = "msg-panic"
+			case "val":
+				res.Oracle = fmt.Sprintf("%s returned a value although the reader reported an error in front of chunk %d: %s", apiNames[a], at, js(oa))
+				res.Sig = "read-error-ignored"
+			}
 		}
 	}
 	return res
@@ -777,7 +883,7 @@ func genTC(r *lib.Rng) TC {
 		t.Name = "other_fn"
 	}
 	if r.Chance(1, 4) {
-		t.Extra = r.Range(1, 3)
+		t.Extra = r.Range(1, len(tcExtraPool)-1)
 	}
 	return t
 }
@@ -794,9 +900,9 @@ func genMsg(r *lib.Rng, p *msgProfile) *Msg {
 	}
 	switch {
 	case r.Chance(1, 10):
-		m.Multi = []string{r.Pick([]string{"p1", "p2", "p3"})}
+		m.Multi = []string{r.Pick([]string{"p1", "p2", "p3", "img:u1", "aud:u2", "vid:u3", "file:u4", ""})}
 		if r.Chance(1, 2) {
-			m.Multi = append(m.Multi, "q")
+			m.Multi = append(m.Multi, r.Pick([]string{"q", "q", "img:u9"}))
 		}
 	case r.Chance(1, 15):
 		m.Multi = []string{}
@@ -898,6 +1004,10 @@ func genMsgCase(r *lib.Rng, tier string) *Case {
 	p := newProfile(r, tier)
 	for i := 0; i < n; i++ {
 		c.Msgs = append(c.Msgs, genMsg(r, p))
+	}
+	if c.API != apiConcatMessages && r.Chance(1, 12) {
+		k := r.Intn(n + 1)
+		c.ErrAt = &k
 	}
 	return c
 }
